@@ -8,7 +8,7 @@ def run(ctx):
                     'by functions whose precondition is `!STEADY` (harness c07_selftest_detects_alloc shows the interception works)')
     note = ('BOUNDED, stated surface: each harness constructs its objects, sets STEADY, then runs a fixed short sequence of operations '
             'on symbolic inputs: sample/frame ops; borrowed slice views and in-place ops; Fixed/Bounded on array storage from EVERY valid '
-            '(start,len) state; rectifiers, Rms::next/current, peak Detector::next/set_attack_frames; Floor/Linear/Sinc(depth 2) '
+            '(start,len) state (push, pop, get, slices, iter, drain, set_first, Extend from exact- and inexact-size iterators); rectifiers, Rms::next/current, peak Detector::next/set_attack_frames; Floor/Linear/Sinc(depth 2) '
             'interpolate/next_source_frame; Converter::next (ratio 1.5); noise/from_iter/gen/equilibrium/saw/square sources and a stack of '
             'map, add_amp, scale_amp, offset_amp, clip_amp, delay, inspect, by_ref().take; fork by_ref branches; buffered next/next_frames; '
             'Window::next, Windower::next/size_hint, Windowed::next')
